@@ -58,7 +58,7 @@ CHECKS = {
             "DESIGN.md §5 C10"),
     "C11": ("exploration",
             "exhaustive enumeration of grammar-generated regexes and all short wildcard patterns x all short values against reference matchers",
-            "Every regex of <=4 (quick) / <=5 (thorough) nodes over {a,b,.,[ab],[^a],[\"],[\\]\"],\\x61,\",^,$} with ?,*,+,|,groups, in quoted and raw form, x every value of length <=3 over {a,b,A,\",LF,0xff}: result equals a backtracking reference matcher and the pattern stored in the JSON is the intended one; invalid regexes rejected; compiled-size limits {0,64,1024,65536,default} x dfa limits {0,default}: no panic, unchanged answers, monotone acceptance. Every wildcard pattern of length <=4/5 over {a,A,b,*,\\,?} x both operators x raw/quoted x every value of length <=3/4 (incl. 0xff): validity (escapes, **), case rule and whole-value matching per the reference; star limits 0..4.",
+            "Every regex of <=4 (quick) / <=5 (thorough) nodes over {a,b,.,[ab],[^a],[\"],[\\]\"],[\\\"],[a\\\"],\\x61,a non-ASCII character,\",^,$} with ?,*,+,|,groups, in quoted and raw form, x every value of length <=3 over {a,b,A,\",LF,0xff,0xc3,0xa9}: result equals a backtracking reference matcher and the pattern stored in the JSON is the intended one; invalid regexes rejected; compiled-size limits {0,64,1024,65536,default} x dfa limits {0,default}: no panic, unchanged answers, monotone acceptance. Every wildcard pattern of length <=4/5 over {a,A,b,*,\\,?} x both operators x raw/quoted x every value of length <=3/4 (incl. 0xff): validity (escapes, **), case rule and whole-value matching per the reference; star limits 0..4.",
             "Reference matchers harness/src/rx.rs; regex features outside the subset are not explored.",
             "DESIGN.md §5 C11"),
     "C14": ("exploration",
@@ -83,17 +83,17 @@ CHECKS = {
             "DESIGN.md §5 C17"),
     "C18": ("model_checking",
             "stateless exploration of the real code under a controlled cooperative scheduler: preemption-bounded exhaustive DFS over schedules",
-            "59 (quick) / 85 (thorough) scenarios of 2-3 real threads x 1-2 operations (execute a shared compiled filter / value expression, or parse + compile + execute) over 9 filters (regex, wildcard, SIMD contains, in $list with a harness matcher, map-each with memoised and re-evaluated arguments, nested harness calls, in {...}) and 3 contexts with different values, with sequential warm-ups, every execution starting from freshly compiled filters: every schedule with at most 2 (quick) / 3 (thorough) preemptions at the granularity of the cfg-guarded engine hooks and of every harness function / matcher call is executed to completion and every call's result compared with the sequential baseline. One schedule is replayed twice (identical traces required); a deliberately racy harness function is the canary (must show > 1 outcome); first use of lazily initialised state is explored in a fresh process. Auxiliary and not deciding: free-running barrier-released threads (4/16/64).",
+            "About 220 (quick) / 280 (thorough) scenarios of 2-3 real threads x 1-2 operations (execute a shared compiled filter / value expression, or parse + compile + execute) over 12 filters (regex, wildcard, SIMD contains, in $list with a harness matcher, map-each with memoised and re-evaluated arguments, nested harness calls, in {...}, three and/or combinators whose deciding operand differs between contexts: for these every (warm-up context, thread-0 context, thread-1 context) triple) and 4 contexts with different values, with sequential warm-ups, every execution starting from freshly compiled filters: every schedule with at most 2 (quick) / 3 (thorough) preemptions at the granularity of the cfg-guarded engine hooks and of every harness function / matcher call is executed to completion and every call's result compared with the sequential baseline. One schedule is replayed twice (identical traces required); a deliberately racy harness function is the canary (must show > 1 outcome); first use of lazily initialised state is explored in a fresh process. Auxiliary and not deciding: free-running barrier-released threads (4/16/64).",
             "Hooks: wirefilter::verif::set_yield_hook (sites filter.execute, filter_value.execute, ctx.get_field_value, regex.is_match, in_list.match_value, contains.select_searcher). No preemption inside dependency code between points; weak-memory effects invisible.",
             "DESIGN.md §5 C18"),
     "C19": ("model_checking",
             "exhaustive enumeration of step sequences interpreted for real on fresh threads against a reference machine; all interleavings of two threads under the controlled scheduler",
-            "Every sequence of <=5 (quick) / <=6 (thorough) steps over {enable, disable, enter catch_panic, return, panic with a unique message, install hook again, set fallback Continue, get backtrace} (37 449 / 299 593 sequences) is interpreted on a fresh thread with real catch_panic frames and real unwinding (the interpreter's outermost catch_unwind plays `outside catch_panic`), with a sentinel hook installed before the catcher's: frame results (value / error text containing the message), nesting level after every step (cfg-guarded accessor), sentinel reception of uncaught panics and the recorded backtrace are compared with the reference machine; five deeper structured sequences; histories up to length 8 (quick) / 10 (thorough) by breadth-first search with one representative history per abstract catcher state (enabled flag, stack of open frames tagged catching / transparent, message recorded), every transition interpreted for real; every pair of sequences of length <=2 (thorough: <=3 x <=2) over the five state-changing steps on two threads under every interleaving at step granularity: each thread's observations equal its single-thread reference.",
+            "Every sequence of <=5 (quick) / <=6 (thorough) steps over {enable, disable, enter catch_panic, return, panic with a unique message, install hook again, set fallback Continue, get backtrace} (37 449 / 299 593 sequences) is interpreted on a fresh thread with real catch_panic frames and real unwinding (the interpreter's outermost catch_unwind plays `outside catch_panic`), with a sentinel hook installed before the catcher's: frame results (value / error text containing the message), nesting level after every step (cfg-guarded accessor), sentinel reception of uncaught panics and the recorded backtrace are compared with the reference machine; five deeper structured sequences; histories up to length 8 (quick) / 10 (thorough) by breadth-first search with one representative history per abstract catcher state (enabled flag, stack of open frames tagged catching / transparent, message recorded), every transition interpreted for real; every pair of sequences of length <=2 (thorough: <=3 x <=2) over the five state-changing steps, plus `enable` + two steps opening a frame, on two threads under every interleaving at step granularity with an additional scheduling point in every frame a panic unwinds through: each thread's observations equal its single-thread reference.",
             "Hook: wirefilter::verif::panic_catcher_level. Fallback mode Abort (aborts by design) and the first-installation race of the hook are outside the property's precondition.",
             "DESIGN.md §5 C19"),
     "C20": ("model_checking",
             "parity enumeration over a filter corpus; exhaustive call histories with the last-error text as state; all interleavings of two threads at call granularity",
-            "Every corpus filter well-typed in the C universe and 19 error inputs (NUL bytes, invalid UTF-8, unknown fields, wrong types, bad literals) through the exported functions next to the Rust API: parse status, error text (modulo NUL -> 0x1a), AST JSON, hash = FNV of the JSON, uses / uses_list for every field and unknown names, compile, match and context JSON on 3 contexts filled through the typed and JSON setters. Every sequence of <=3 (quick) / <=4 (thorough) calls over 17 call kinds (succeeding calls, 12 kinds of failing calls, clear): each failure is reported through status / boolean and the calling thread's last-error equals the Rust API's error text, is NUL-terminated without interior NUL, is replaced by the next failure, untouched by successes and cleared by clear. Two threads x 2 calls under every interleaving. A harness function panicking in check_param / compile / execution with hook installed and catcher enabled gives Status::Panic with the message in last-error and no unwinding.",
+            "Every corpus filter well-typed in the C universe and 19 error inputs (NUL bytes, invalid UTF-8, unknown fields, wrong types, bad literals) through the exported functions next to the Rust API: parse status, error text (modulo NUL -> 0x1a), AST JSON, hash = FNV of the JSON, uses / uses_list for every field and unknown names, compile, match and context JSON on 3 contexts filled through the typed and JSON setters. Every sequence of <=3 (quick) / <=4 (thorough) calls over 17 call kinds (succeeding calls, 12 kinds of failing calls, clear): each failure is reported through status / boolean and the calling thread's last-error equals the Rust API's error text, is NUL-terminated without interior NUL, is replaced by the next failure, untouched by successes and cleared by clear; the same for every sequence of <=2 (quick) / <=3 (thorough) calls over the complete failure-path alphabet (47 call kinds: each of the six value setters on ok / unregistered field / other type / non-UTF-8 name, bad names for add-field, uses, uses_list, unknown field in and truncation of a context document). Two threads x 2 calls under every interleaving. A harness function panicking in check_param / compile / execution with hook installed and catcher enabled gives Status::Panic with the message in last-error and no unwinding.",
             "The exported functions are called from the rlib; functions are registered through the wrapped Rust builder.",
             "DESIGN.md §5 C20"),
     "C12": ("exploration",
